@@ -80,8 +80,11 @@ def explore(ctx):
                 if suite == "ps" and ch in ("e",):
                     continue
                 for i in range(min(n, 3)):
+                    msgs = [rng.choice(MSG_KINDS) for _ in range(n)]
+                    if ch == "msg_swap" and n >= 2:
+                        msgs[0], msgs[1] = "1", "2"
                     sig_ops.append({"op": "f_sigv", "suite": suite, "seed": rng.randrange(1 << 30), "n": n,
-                                    "msgs": [rng.choice(MSG_KINDS) for _ in range(n)], "change": {"k": ch, "i": rng.randrange(n)}})
+                                    "msgs": msgs, "change": {"k": ch, "i": rng.randrange(n)}})
     if ctx.get("replay"):
         rp = json.load(open(ctx["replay"]))
         sc = rp.get("case", {}).get("scenario")
@@ -137,6 +140,12 @@ def explore(ctx):
         case = {"scenario": o, "impl": r["impl"], "model": m}
         if ch == "none" and r["impl"] != "accept":
             failures.append({"class": None, "witness": True, "text": f"fresh signature does not verify ({o['suite']}, n={o['n']})", "case": case})
+        elif ch == "msg_swap" and len(r["msgs"]) >= 2 and r["msgs"][0] != r["msgs"][1] and r["impl"] == "accept":
+            failures.append({"class": None, "witness": True,
+                             "text": f"signature verifies with two different messages exchanged ({o['suite']}, n={o['n']}): it does not bind the positions of the messages; model {m}", "case": case})
+        elif len(set(r["y"])) != len(r["y"]):
+            failures.append({"class": None, "witness": True,
+                             "text": f"key generation produced repeated message generators ({o['suite']}, n={o['n']}): signatures under this key bind only sums of messages", "case": case})
         elif ch in ("msg", "a", "a_zero", "e", "s2", "mtick", "key") and r["impl"] == "accept":
             failures.append({"class": None, "witness": True, "text": f"signature verifies after change '{ch}' ({o['suite']}, n={o['n']}); model {m}", "case": case})
         elif r["impl"] != m:
